@@ -36,6 +36,16 @@ def configs(tier):
                             name="%s N=3 two-step: aborted call, then any call A=%d" % (kind, a),
                             two_step=dict(d1=1, persistent1=P2, d2=0 if tier == "quick" else 1, persistent2=() if tier == "quick" else P2,
                                           L=2 if tier == "quick" else 3)))
+        if a == 0:
+            # "any sequence of parent assignments" includes one issued from inside a hook: at every hook invocation the
+            # hook detaches some node instead of returning (with assertions off: the internal assertions are written for
+            # hooks that do not touch the tree)
+            for kind in ("mixin", "light") + (("node", "symlink") if tier == "thorough" else ()):
+                out.append(dict(kind=kind, n=3, cfg=dict(CFG, extras=False, read=False), hidden=False, d=0, assertions=0, judge="c01",
+                                reenter=True, name="%s N=3 hooks that detach a node re-entrantly A=0" % kind))
+            out.append(dict(kind="mixin", n=4, cfg=dict(CFG, extras=False, read=False, nonnode=False, L=2 if tier == "quick" else 4),
+                            hidden=False, d=0, assertions=0, judge="c01", reenter=True,
+                            name="mixin N=4 hooks that detach a node re-entrantly A=0"))
         # the class of the exception a hook raises is part of the alphabet (TreeError / LoopError subclasses)
         for kind, fl in (("mixin", "tree"), ("light", "loop")) if tier == "quick" else [(k, f) for k in ("mixin", "light", "node") for f in ("tree", "loop", "value")]:
             out.append(dict(kind=kind, n=3, cfg=dict(CFG, extras=False), hidden=False, d=1 if tier == "quick" else 2, persistent=P2,
